@@ -642,3 +642,23 @@ _ROUND7_RULES = {
 }
 for _k, _v in _ROUND7_RULES.items():
     PROPS[_k]["rule"] += " " + _v
+
+_ROUND8_RULES = {
+    "C04": "In a third of TestC04RoundTrip's cases a second handle on the same repository (another process) reads an older bug after every commit.",
+    "C05": "TestC05CLI may move the local references with stock git (git fetch origin 'refs/bugs/*:refs/bugs/*' ...), then pull and write.",
+    "C06": "Scenario edit-many: one commit of 250..369 operations.",
+    "C07": "A third of the cache-level merges run in a repository without a selected user identity: the merge may be refused as a whole, refs stay, no crash.",
+    "C08": "TestC08RotationDuringCommit: key sets before/after (0..2 keys each) rotated on the shared identity object by a hook that runs just before the first storage operation of the author's commit; if Commit returns nil the bug reads back.",
+    "C09": "TestC09ForeignFormatting: 1..4 versions, each compact / with a trailing newline / indented / surrounded by white space; id = hash of the first JSON document; read, merged as new or fast-forwarded with the same id, repeat = nothing.",
+    "C10": "Half of TestC10Cache's cases continue with a second user who commits four comments and two titles in one commit while the first commits three comments and a label add/remove; after the merge snapshot = reference interpretation of the stored DAG = a second read.",
+    "C11": "Action dropindex: the index directory is removed while the cache files stay; reopen.",
+    "C12": "Half of TestC12Evaluate's cases run eight rounds of two simultaneous requests on one bug (close/re-open || comment) under lock-boundary delays before the queries, and ask status:open, status:closed, participant: and actor: explicitly.",
+    "C13": "Half of the populations hold one bug written with indented JSON in another key order (ids = hashes of the stored bytes).",
+    "C14": "Cache mode may load the cache from files, resolve the victim first, and after the removal shrink both caches to 1 and resolve every entity (no panic).",
+    "C15": "From: commands typed at the top, in a linked working tree (git worktree add) or in a sub-directory.",
+    "C16": "TestC16ImportWhilePulling: a colleague imported the same project and pushed; our import's request #0 triggers a pull of that; afterwards one bug per issue in the tracker's state.",
+    "C19": "Worktree: one-shot commands typed in a linked working tree or a sub-directory while the holder runs in the main one.",
+    "C20": "CreateK >= 0: the first page (size 1..3) of allBugs sort:creation-asc is served from a hook inside another user's creation of a bug, the following pages after it; every bug that existed at the start is visited once, in order.",
+}
+for _k, _v in _ROUND8_RULES.items():
+    PROPS[_k]["rule"] += " " + _v
